@@ -30,6 +30,22 @@ func drawValidate(t *rapid.T) sim.ChainCase {
 			}
 			k := rapid.IntRange(0, 6).Draw(g.T, "hostileProbes")
 			cs := g.C.Tip()
+			// value-level hostility that single-field mutation does not reach: amounts that cancel in wrapping arithmetic,
+			// ephemeral parents with misstated values (alone and in pairs that wrap onto the genuine total)
+			if rapid.IntRange(0, 2).Draw(g.T, "wrapProbes") == 0 {
+				func() {
+					defer func() {
+						if r := recover(); r != nil {
+							if _, isRuntime := r.(runtime.Error); !isRuntime {
+								if _, isString := r.(string); !isString {
+									panic(r)
+								}
+							}
+						}
+					}()
+					g.NewAdv(honest).WrapProbes("total")
+				}()
+			}
 			for i := 0; i < k; i++ {
 				func() {
 					// building / sealing a hostile structure may panic inside helper code that is not an entry
